@@ -285,6 +285,12 @@ func (idx *HNSWIndex) Add(vector VectorNode) error {
 	// Insert into graph
 	idx.insertNode(node)
 
+	// No links means no live node was reachable (entry point and everything
+	// behind it soft-deleted): start searches from the new node so it can be found
+	if len(node.Edges[0]) == 0 {
+		idx.entryPoint = id
+	}
+
 	idx.mu.Unlock()
 	return nil
 }
@@ -299,7 +305,7 @@ func (idx *HNSWIndex) Add(vector VectorNode) error {
 // SOFT DELETE MECHANISM:
 // Instead of immediately removing (expensive O(n × M × L)),
 // we mark as deleted in roaring bitmap. Deleted nodes are:
-//   - Skipped during search
+//   - Never returned by search (still traversed to reach live nodes)
 //   - Still in graph structure
 //   - Not counted as active nodes
 //
@@ -578,10 +584,17 @@ func (idx *HNSWIndex) searchLayer(query []float32, entryPoint uint32, ef int, la
 	result := newMaxHeap()
 	defer putMaxHeap(result) // Return to pool when done
 
-	// Check entry point BEFORE adding to candidates
+	// Deleted nodes are explored but not reported, so result can be empty
+	// mid-search: with ef >= 1 every (*result)[0] below is guarded by result.Len()
+	if ef < 1 {
+		ef = 1
+	}
+
+	// A deleted entry point is still explored (so the search can reach live
+	// nodes through it) but is not added to the results
+	d := idx.distance.Calculate(query, idx.nodes[entryPoint].Vector())
+	heap.Push(candidates, candidate{id: entryPoint, distance: d})
 	if !idx.deletedNodes.Contains(entryPoint) {
-		d := idx.distance.Calculate(query, idx.nodes[entryPoint].Vector())
-		heap.Push(candidates, candidate{id: entryPoint, distance: d})
 		heap.Push(result, candidate{id: entryPoint, distance: d})
 	}
 	visited.Add(entryPoint)
@@ -598,11 +611,6 @@ func (idx *HNSWIndex) searchLayer(query []float32, entryPoint uint32, ef int, la
 		node := idx.nodes[current.id]
 		if layer < len(node.Edges) {
 			for _, neighborID := range node.Edges[layer] {
-				// SOFT DELETE CHECK: Skip deleted neighbors
-				if idx.deletedNodes.Contains(neighborID) {
-					continue
-				}
-
 				if !visited.Contains(neighborID) {
 					visited.Add(neighborID)
 
@@ -610,6 +618,12 @@ func (idx *HNSWIndex) searchLayer(query []float32, entryPoint uint32, ef int, la
 
 					if result.Len() < ef || d < (*result)[0].distance {
 						heap.Push(candidates, candidate{id: neighborID, distance: d})
+
+						// SOFT DELETE CHECK: Deleted neighbors are explored but not reported
+						if idx.deletedNodes.Contains(neighborID) {
+							continue
+						}
+
 						heap.Push(result, candidate{id: neighborID, distance: d})
 
 						if result.Len() > ef {
